@@ -106,7 +106,37 @@ def check_case(case, acc):
              nontrivial=len(case['order']) > 0, outcome='rows:%d' % len(expected))
     refuse = (not case.get('trailer', True)) or (case['want'] not in cfg)
     try:
-        if case.get('via') == 'csv':
+        if case.get('via') in ('cli', 'argv'):
+            import contextlib
+            import os
+            import shutil
+            import sys
+            import tempfile
+            from cardutil.cli import mci_ipm_param_to_csv
+            d = tempfile.mkdtemp(prefix='vf_c18_')
+            argv0 = sys.argv
+            try:
+                inp = os.path.join(d, 'param.bin')
+                with open(inp, 'wb') as f:
+                    f.write(data)
+                std = case['want'] in ('IP0006T1', 'IP0040T1', 'IP0075T1', 'IP0095T1')
+                with contextlib.redirect_stdout(io.StringIO()), contextlib.redirect_stderr(io.StringIO()):
+                    if case['via'] == 'cli':
+                        mci_ipm_param_to_csv.cli_run(in_filename=inp, table_id=case['want'], in_encoding=case['enc'],
+                                                     no1014blocking=not case['blocked'], expanded=case['expanded'])
+                    else:
+                        sys.argv = ['mci_ipm_param_to_csv', inp, case['want'], '--in-encoding', case['enc']] + \
+                            (['--no1014blocking'] if not case['blocked'] else []) + \
+                            (['--expanded'] if case['expanded'] else [])
+                        mci_ipm_param_to_csv.cli_entry()
+                with open(inp + '_' + case['want'] + '.csv', newline='') as f:
+                    got = list(csv.DictReader(f))
+                if not std:
+                    raise core.Broken('command entry points read the packaged table configuration only')
+            finally:
+                sys.argv = argv0
+                shutil.rmtree(d, ignore_errors=True)
+        elif case.get('via') == 'csv':
             from cardutil.cli import mci_ipm_param_to_csv
             out = io.StringIO()
             mci_ipm_param_to_csv.mci_ipm_param_to_csv(
@@ -273,6 +303,10 @@ def enumerate_cases(tier, seed):
                 tl = std if want in std else gl + ['IP0040T1']
                 cases.append(dict(base, tables=tl, subs=SUB_POOL[:4], order=[0, 1, 2, 3, 3, 2, 1, 0, 0], want=want,
                                   expanded=expanded, enc=enc, blocked=blocked, via='csv'))
+                if want in std:
+                    for via in ('cli', 'argv'):
+                        cases.append(dict(base, tables=tl, subs=SUB_POOL[:4], order=[0, 1, 2, 3, 3, 2, 1, 0, 0],
+                                          want=want, expanded=expanded, enc=enc, blocked=blocked, via=via))
     cases += multi_cases(seed)
     return cases
 
@@ -306,7 +340,7 @@ def describe(tier, seed):
                 'of tables every multiset of 0..2 rows each and EVERY interleaving; (c) every count vector 0..2 over '
                 'four tables in cyclic order with rows of an unconfigured table in between; (d) generated layouts '
                 '(adjacent 1-wide columns, gaps, single column), a table listed in the index under two sub-ids; (e) missing trailer / unconfigured table must raise '
-                'MciIpmDataError; (f) through mci_ipm_param_to_csv; (g) two or three readers in one process on files with different '
+                'MciIpmDataError; (f) through mci_ipm_param_to_csv (function, cli_run and argument-parser entry on real files); (g) two or three readers in one process on files with different '
                 'sub-id assignments (and rows whose sub-id is missing from their own index), opened and drained side '
                 'by side, alternately and one after another. latin_1/cp500, VBS/1014. Oracle: exactly the '
                 'requested table\'s rows in file order with timestamp, code and every configured column equal to an '
